@@ -2,6 +2,7 @@
 from __future__ import annotations
 
 import common as C
+import fault_probes as FP
 import engine_common as E
 import engine_extract
 
@@ -68,6 +69,9 @@ def hook_probes(rng, n):
     return out
 
 
+PROBE_JUDGES = [FP.ends_usable]
+
+
 def run(ctx, model=True):
     res = E.run_property(ctx, "C07", oracle, gen=lambda rng: E.gen_scenario(rng, dense=rng.random() < 0.5), quick=150, thorough=4000, model=model)
     probes = hook_probes(ctx.rng, ctx.budget(12, 200))
@@ -78,6 +82,7 @@ def run(ctx, model=True):
         for sig, what in oracle(sc, o):
             res.violations.append(C.Violation("async-pause-hook:" + sig, "implementation-only probe (async pause hook): " + what, sc))
     res.notes.append(f"{len(probes)} implementation-only probes with an async Pausable.pause() hook (a suspension point of _run that the Lean model does not have)")
+    FP.run_probes(ctx, res, PROBE_JUDGES, ["close", "teardown-request", "leftover-stage"], 20, 400)
     return res
 
 
@@ -86,4 +91,6 @@ def run_impl_only(ctx):
 
 
 def replay(ctx, data):
+    if FP.is_probe(data):
+        return FP.replay_probe(ctx, data, PROBE_JUDGES)
     return E.replay_property(ctx, data, oracle)
